@@ -18,7 +18,8 @@ import (
 //	Fprint <print case as for Sprint> bufsize mode k  =>  n err calls srccalls nacc byte*
 //
 // mode 0: error with partial write; 1: error, nothing written by the faulting call; 2: short write without error
-// (then errors); 3: error with partial write, then full recovery.
+// (then errors); 3: error with partial write, then full recovery;
+// 4: short write without error even of 0 bytes, then errors (statement only).
 type faultWriter struct {
 	errv    error
 	left    int
@@ -59,6 +60,13 @@ func (w *faultWriter) Write(p []byte) (int, error) {
 		w.left = 0
 		w.faulted = true
 		return 0, w.err()
+	case 4:
+		// a short write without an error also when not a single byte is accepted (k at a write boundary, k = 0);
+		// errors afterwards. How many calls the buffering makes after that is not compared (statement only).
+		w.acc = append(w.acc, p[:r]...)
+		w.left = 0
+		w.faulted = true
+		return r, nil
 	default:
 		if r > 0 {
 			w.acc = append(w.acc, p[:r]...)
@@ -160,7 +168,7 @@ func genC12(tier string, r *Rng, emit func(Case)) {
 					emit(Case{Ver: ver, Op: "Fprint", Args: args})
 				}
 			} else {
-				args := append(append(toks{}, base...), itoa(size), itoa(r.Intn(4)), itoa(k))
+				args := append(append(toks{}, base...), itoa(size), itoa(r.Intn(5)), itoa(k))
 				emit(Case{Ver: ver, Op: "Fprint", Args: args})
 			}
 		}
@@ -344,7 +352,7 @@ func genC12Empty(tier string, r *Rng, emit func(Case)) {
 						t.bool(false)
 					}
 					t.i(fn)
-					for mode := 0; mode < 4; mode++ {
+					for mode := 0; mode < 5; mode++ {
 						for _, k := range []int{0, 1} {
 							args := append(append(toks{}, t...), itoa(r.Pick([]int{0, 1, 16})), itoa(mode), itoa(k))
 							emit(Case{Ver: ver, Op: "Fprint", Args: args})
